@@ -439,6 +439,10 @@ pub struct Case {
   /// connectable cases: every recorder subscribes to `observable().take(n)`
   #[serde(default)]
   pub conn_take: Option<usize>,
+  /// connectable cases: `Some(k)` - only recorder k goes through the take(n), the others
+  /// subscribe to `observable()` itself
+  #[serde(default)]
+  pub conn_take_only: Option<usize>,
   pub recorders: Vec<Vec<Reaction>>,
   pub actions: Vec<Action>,
 }
@@ -474,7 +478,7 @@ impl Case {
       "{}{} | hots={:?}{} | {} {}",
       self.root.show(),
       match &self.conn {
-        Some(k) => format!(".{:?}(){}", k, self.conn_take.map_or(String::new(), |n| format!(".take({})", n))).to_lowercase(),
+        Some(k) => format!(".{:?}(){}", k, self.conn_take.map_or(String::new(), |n| match self.conn_take_only { None => format!(".take({})", n), Some(k) => format!(".[observer {} only: take({})]", k, n) })).to_lowercase(),
         None => String::new(),
       },
       self.hots,
